@@ -32,6 +32,16 @@ def build(ctx):
     return exe, C.driver_path("acq_chan")
 
 
+def prove_with_lock_discipline(ctx, module, theorems, drivers):
+    """the sequential channel model treats one API call as one atomic step; that is only true of a channel.c in which every access
+    to the shared fields happens under the channel's lock — checked on the source as it is now (extract/syncskel.py regenerates
+    Generated/SyncSkeleton.lean, the theorem is re-checked by the kernel)"""
+    from . import syncskel, rtcheck
+    syncskel.regenerate(ctx)
+    rtcheck.prove_all(ctx, [(module, theorems, drivers),
+                            ("AcqVerif.Props.LockDiscipline", ["AcqVerif.LockDiscipline.lock_discipline_of_source"], [])])
+
+
 # ---------------------------------------------------------------- generators
 def wf_ops(cap, st, sizes, nmax_readers):
     """well-formed next operations for the abstract usage state st=(pending, nreaders, mappedflags)"""
